@@ -280,7 +280,9 @@ theorem C06_UB_max_counterexample :
   norm_num [Gen.K1_NUM, Gen.K1_DEN, Gen.B_NUM, Gen.B_DEN, Gen.MAX_SCORE_TF]
 
 /-
-FULL STATEMENT (refuted by `C06_UB_max_counterexample` and `C06_merge_unsorted_counterexample`):
+FULL STATEMENT (refuted by `C06_UB_max_counterexample`, `C06_merge_unsorted_counterexample`,
+`C06_wand_single_needs_UB_block`; and for dis-max queries by `C12_dismax_topdocs_counterexample`:
+`block_wand` sums the clauses whatever the score combiner):
   theorem C06_full : ∀ corpus query K O, TopDocs(K, O) on the block-WAND paths = topK K O (exhaustive scores)
 The pruning part holds given `skipsBelow` (`C06_pruning_sound`); `skipsBelow` for the three WAND
 drivers needs `UB_max` (false, above) and `UB_block` (needs the searcher's average field length
@@ -294,6 +296,15 @@ def gtNat (a b : Nat) : Bool := decide (b < a)
 theorem gtNat_strictWeak : StrictWeak gtNat where
   asymm a b h := by simp [gtNat] at *; omega
   negTrans a b c h1 h2 := by simp [gtNat] at *; omega
+
+/-- `UB_block` is necessary: a block whose stored bound is 0 (what `block_max_score` evaluates to
+for a term of a field indexed without freqs — known finding `C06:nofreq-term-blockmax-zero`) is
+skipped as soon as the threshold is non-negative although its documents score above it. -/
+theorem C06_wand_single_needs_UB_block :
+    Wand.wandSingle gtNat (fun (s : List Nat) d sc => (s ++ [d], sc)) ([], 1) [⟨[(0, 3), (1, 5)], 0⟩]
+      = ([], 1) ∧
+    Wand.exhaustive gtNat (fun (s : List Nat) d sc => (s ++ [d], sc)) ([], 1) [(0, 3), (1, 5)]
+      = ([0, 1], 5) := by decide
 
 /-- a complete sort satisfies the `select_nth` contract -/
 theorem selSorted_selectNth (gt : α → α → Bool) (hgt : StrictWeak gt) (K : Nat) :
